@@ -34,6 +34,11 @@ class BaseModel:
                 r = fnc(ex, path, bb, t, args)
                 if r is not None:
                     return r
+        if re.search(r"box_assume_init_into_vec_unsafe", name):
+            # vec![a, b, ..] : recover the elements from the array written into the Box
+            for e in reversed(path.events):
+                if e[0] == "write" and e[4][0] == "array":
+                    return [(("vec", e[4][1]), None)]
         if self.fork_next and re.search(r"iter::Iterator>::next$", name):
             it = ex.deref_val(path, args[0])
             item = ("sym", "item@bb%d" % bb)
@@ -42,6 +47,18 @@ class BaseModel:
             if self_ty.startswith("std::slice::Iter") or "btree_set::Iter" in self_ty or "hash_map::Iter" in self_ty:
                 item = ("ref", ("loc", item, ()), False)
             return [(none(), None), (some(item), None)]
+        return None
+
+
+LOG_MACROS = ("trace!", "debug!", "info!", "warn!", "error!")
+
+
+class LogModel(BaseModel):
+    """BaseModel that treats the log macros as disabled (they are effect-free)."""
+
+    def switch(self, ex, path, bb, d, t):
+        if t.get("exp_outer") in LOG_MACROS:
+            return False
         return None
 
 
@@ -126,3 +143,17 @@ def is_derived(fn):
 
 def short(fn):
     return M.short_name(fn.name if hasattr(fn, "name") else fn)
+
+
+def argval(e, i):
+    """Value of the i-th argument of a call event at call time (references to locals resolved)."""
+    a = e[7][i] if len(e) > 7 and e[7] is not None and i < len(e[7]) else e[3][i]
+    n = 0
+    while a[0] == "ref" and len(a) > 3 and n < 6:
+        a = a[3]
+        n += 1
+    return a
+
+
+def argstr(e, i):
+    return S.fstr(argval(e, i))
